@@ -192,6 +192,7 @@ struct Vast<C> {
     h: u32,
     fills: Vec<(i64, i64, i64, i64, Cl)>,
     other_pixels: u64,
+    calls: u64,
     _p: std::marker::PhantomData<C>,
 }
 impl<C: RgbColor> Dimensions for Vast<C> {
@@ -230,8 +231,16 @@ impl<C: RgbColor> DrawTarget for Vast<C> {
         Ok(())
     }
     fn fill_solid(&mut self, area: &Rectangle, color: C) -> Result<(), Self::Error> {
+        // bounded: a drawable whose number of calls grows with the target's size would otherwise
+        // eat all memory / never finish on these targets (the case is then inconclusive)
+        self.calls += 1;
+        if self.calls > 1 << 22 {
+            std::panic::panic_any(crate::hal::BudgetExceeded { ops: self.calls });
+        }
         if let Some(br) = area.bottom_right() {
-            self.fills.push((area.top_left.x as i64, area.top_left.y as i64, br.x as i64, br.y as i64, classify(color)));
+            if self.fills.len() < 1 << 16 {
+                self.fills.push((area.top_left.x as i64, area.top_left.y as i64, br.x as i64, br.y as i64, classify(color)));
+            }
         }
         Ok(())
     }
@@ -240,7 +249,7 @@ impl<C: RgbColor> DrawTarget for Vast<C> {
 /// Targets of 2^32 pixels and more: no panic, and the picture (evaluated at probe points from
 /// the recorded fills, last one wins) has the white frame and red | green | blue.
 fn one_vast<C: RgbColor>(w: u32, h: u32) -> Result<Result<(), (String, String)>, CallResult> {
-    let mut t = Vast::<C> { w, h, fills: Vec::new(), other_pixels: 0, _p: std::marker::PhantomData };
+    let mut t = Vast::<C> { w, h, fills: Vec::new(), other_pixels: 0, calls: 0, _p: std::marker::PhantomData };
     guarded(|| {
         let _ = TestImage::<C>::new().draw(&mut t);
     })?;
@@ -291,6 +300,8 @@ pub fn c19(args: &Args) -> Acc {
             a.count("targets_drawn", 1);
             a.count("targets_with_2^32_pixels_or_more", 1);
             match r {
+                // more than 2^22 drawing calls for one picture: neither a panic nor a picture
+                Err(CallResult::Budget { ops }) => a.inconclusive(format!("vast: the test image needed more than {} drawing calls on a {}x{} target; not judged", ops - 1, w, h)),
                 Err(c) => a.violate("vast", idx, "panic", format!("{:?}", c), case()),
                 Ok(Err((sig, d))) => a.violate("vast", idx, format!("vast/{}", sig), d, case()),
                 Ok(Ok(())) => a.count("pictures_judged_at_probe_points", 1),
